@@ -26,6 +26,7 @@ import (
 	spb "google.golang.org/genproto/googleapis/rpc/status"
 	"google.golang.org/grpc"
 	"google.golang.org/grpc/codes"
+	"google.golang.org/grpc/metadata"
 	"google.golang.org/grpc/status"
 	"google.golang.org/protobuf/encoding/protojson"
 	"google.golang.org/protobuf/proto"
@@ -60,9 +61,10 @@ type Case struct {
 	Code      uint32   `json:"code"`
 	Msg       string   `json:"msg"`
 	Details   []Detail `json:"details"`
-	After     int      `json:"after"` // replies sent before the error (server streaming); -1 = unary method
-	JSONSub   bool     `json:"json_sub"` // gRPC-web: the message sub-codec is +json instead of +proto (status details stay a binary google.rpc.Status)
-	Gzip      bool     `json:"gzip"`  // gRPC family: the call negotiates per-message gzip (request and replies compressed)
+	After     int      `json:"after"`     // replies sent before the error (server streaming); -1 = unary method
+	HeaderOp  string   `json:"header_op"` // what the handler does before failing: "" nothing | "set" grpc.SetHeader | "send" grpc.SendHeader
+	JSONSub   bool     `json:"json_sub"`  // gRPC-web: the message sub-codec is +json instead of +proto (status details stay a binary google.rpc.Status)
+	Gzip      bool     `json:"gzip"`      // gRPC family: the call negotiates per-message gzip (request and replies compressed)
 }
 
 var (
@@ -121,6 +123,12 @@ func newMux(c Case) *larking.Mux {
 		return m
 	}
 	unary := func(ctx context.Context, fm string, req *dynamicpb.Message) (proto.Message, error) {
+		switch c.HeaderOp {
+		case "set":
+			grpc.SetHeader(ctx, metadata.Pairs("x-c5", "1"))
+		case "send":
+			grpc.SendHeader(ctx, metadata.Pairs("x-c5", "1"))
+		}
 		if c.Code == 0 {
 			return dynamicpb.NewMessage(req.Descriptor()), nil // OK: a reply is required
 		}
@@ -130,6 +138,12 @@ func newMux(c Case) *larking.Mux {
 		m := dynamicpb.NewMessage(in)
 		if err := ss.RecvMsg(m); err != nil {
 			return err
+		}
+		switch c.HeaderOp {
+		case "set":
+			ss.SetHeader(metadata.Pairs("x-c5", "1"))
+		case "send":
+			ss.SendHeader(metadata.Pairs("x-c5", "1"))
 		}
 		for i := 0; i < c.After; i++ {
 			if err := ss.SendMsg(reply(out, i)); err != nil {
@@ -514,6 +528,7 @@ func genCase(t *rapid.T, transports []string) Case {
 	if strings.HasPrefix(c.Transport, "grpc") {
 		c.Gzip = rapid.IntRange(0, 2).Draw(t, "gzip") == 0
 	}
+	c.HeaderOp = rapid.SampledFrom([]string{"", "", "set", "send"}).Draw(t, "headerOp")
 	if strings.HasPrefix(c.Transport, "grpcweb") {
 		c.JSONSub = rapid.IntRange(0, 2).Draw(t, "jsonSub") == 0
 	}
@@ -556,8 +571,11 @@ func record(c Case) {
 	if c.JSONSub {
 		cl = append(cl, "json-sub-codec")
 	}
+	if c.HeaderOp != "" {
+		cl = append(cl, "handler-header-op="+c.HeaderOp)
+	}
 	if needsEsc || len(c.Details) > 0 || c.Code > 16 || c.After > 0 {
-		key = fmt.Sprintf("%s|%d|%q|%v|%d|%v|%v", c.Transport, c.Code, c.Msg, c.Details, c.After, c.Gzip, c.JSONSub)
+		key = fmt.Sprintf("%s|%d|%q|%v|%d|%v|%v|%s", c.Transport, c.Code, c.Msg, c.Details, c.After, c.Gzip, c.JSONSub, c.HeaderOp)
 	}
 	evid.Eval(key, cl...)
 }
